@@ -82,6 +82,32 @@ def instances(tier, rng):
     return out
 
 
+def spot(tier, rng):
+    """grids far beyond the exists-forall bound, is_active pinned to adversarial patterns (long diagonal chains) and a few
+    seeded random ones; the solver decides over all rank assignments"""
+    out = []
+    shapes = [(4, 8), (8, 4), (4, 6), (5, 9)] if tier == "quick" else [(4, 8), (8, 4), (4, 6), (6, 4), (5, 9), (9, 5), (4, 12), (6, 10)]
+    for (h, w) in shapes:
+        pats = []
+        for cells in (E.snake_cells(h, w), [(x, y) for (y, x) in E.snake_cells(w, h)]):
+            for k in range(max(1, len(cells) - 2), len(cells) + 1):
+                g = [False] * (h * w)
+                for (y, x) in cells[:k]:
+                    if 0 <= y < h and 0 <= x < w:
+                        g[y * w + x] = True
+                pats.append(g)
+        for _ in range(4 if tier == "quick" else 12):
+            g = [False] * (h * w)
+            for _k in range(rng.randint(2, h * w // 3)):
+                c = rng.randrange(h * w)
+                y, x = divmod(c, w)
+                if not any(0 <= yy < h and 0 <= xx < w and g[yy * w + xx] for yy, xx in ((y - 1, x), (y + 1, x), (y, x - 1), (y, x + 1))):
+                    g[c] = True
+            pats.append(g)
+        out.append(dict(name="spot-grid%dx%d/nans" % (h, w), form="grid", h=h, w=w, fn="nans", mode="vars", patterns=pats))
+    return out
+
+
 def key_of(d, kind):
     shape = ""
     if d["form"] == "grid":
@@ -96,8 +122,11 @@ def run(tier, only=None):
          "cspuz.graph.active_vertices_connected (through the graph form)", "cspuz.array.BoolArray2D.__getitem__ (shifted slices)"],
         {"grids": "every shape with h*w <= %s incl. all 1xN, Nx1" % ("9" if tier == "quick" else "12, + 4x4, 1x14, 14x1, 3x5, 5x3"),
          "graphs": "all simple graphs <= %d vertices up to isomorphism + named families" % (4 if tier == "quick" else 5)},
-        ["larger grids/graphs"], E.EXPL + " Grid form and explicit-graph form on the same grid graph are both compared with the "
-        "same specification, hence with each other.")
+        ["larger grids/graphs (beyond h*w <= 12 only the pinned 'spot' patterns on grids up to 6x10 are decided: long diagonal chains and "
+         "seeded random non-adjacent patterns, all rank assignments symbolic)"],
+        E.EXPL + " Grid form and explicit-graph form on the same grid graph are both compared with the same specification, hence with each "
+        "other. Spot mode: for grids up to 6x10 is_active is pinned to adversarial patterns and the solver decides over all auxiliaries.",
+        spot=spot)
 
 
 replay = E.generic_replay
